@@ -78,6 +78,7 @@ func C13(c *Ctx) error {
 		spec{gen.GenNestedAnnot(n+4, true), "nested_annotations"},
 		spec{gen.GenFeaturePairs(n + 5), "feature_pairs"},
 		spec{basePathVariable(n + 6), "base_path_variable"},
+		spec{foreignResponse(n + 7), "foreign_response"},
 		spec{postQueryOnly(n + 2), "post_query_only"})
 	// whatever the plugins accept must build: the rule-breaking fragments of C12 (refused today) at
 	// every placement; a validator that stops refusing one of them must not let uncompilable code out
@@ -353,6 +354,34 @@ func basePathVariable(idx int) *ir.Request {
 		{Name: "Add", Input: P + "AddReq", Output: P + "Reply", Config: &ir.HTTPConfig{Path: "/members", Method: "POST"}},
 	}}}
 	return &ir.Request{Files: []*ir.File{f}, Generate: []string{f.Name}}
+}
+
+// foreignResponse: RPCs whose request or response message lives in ANOTHER Go package than the file being
+// generated — a shared models package imported by the service file, and a well-known type: every
+// mention of such a type in the emitted Go needs its package qualifier.
+func foreignResponse(idx int) *ir.Request {
+	models := &ir.File{Name: fmt.Sprintf("fr%d/models/models.proto", idx), Package: "fr.models.v1", GoPackage: "example.com/gen/fr/models/v1;modelsv1",
+		Messages: []*ir.Message{{Name: "Account", Fields: []*ir.Field{{Name: "id", Number: 1, Kind: "string"}, {Name: "balance", Number: 2, Kind: "int64"}}},
+			{Name: "AccountRef", Fields: []*ir.Field{{Name: "id", Number: 1, Kind: "string"}}}}}
+	api := &ir.File{Name: fmt.Sprintf("fr%d/api/api.proto", idx), Package: "fr.api.v1", GoPackage: "example.com/gen/fr/api/v1;apiv1", Deps: []string{models.Name},
+		Messages: []*ir.Message{{Name: "OpenReq", Fields: []*ir.Field{{Name: "owner", Number: 1, Kind: "string"}}},
+			{Name: "Receipt", Fields: []*ir.Field{{Name: "account", Number: 1, Kind: "message", TypeName: ".fr.models.v1.Account"}}}}}
+	api.Services = []*ir.Service{{Name: "Accounts", BasePath: "/accounts", Methods: []*ir.Method{
+		{Name: "Open", Input: ".fr.api.v1.OpenReq", Output: ".fr.models.v1.Account", Config: &ir.HTTPConfig{Path: "/open", Method: "POST"}},
+		{Name: "Get", Input: ".fr.models.v1.AccountRef", Output: ".fr.models.v1.Account", Config: &ir.HTTPConfig{Path: "/{id}", Method: "GET"}},
+		{Name: "Close", Input: ".fr.models.v1.AccountRef", Output: ".fr.api.v1.Receipt", Config: &ir.HTTPConfig{Path: "/{id}", Method: "DELETE"}},
+		{Name: "Touched", Input: ".fr.api.v1.OpenReq", Output: ".google.protobuf.Timestamp", Config: &ir.HTTPConfig{Path: "/touched", Method: "POST"}},
+	}}}
+	// RPC names that START with an initialism (two or more capitals): every identifier derived from the
+	// name (handler variable, <rpc>PathParams, <rpc>QueryParams, header getters) must be derived the same way
+	api.Messages = append(api.Messages, &ir.Message{Name: "PingReq", Fields: []*ir.Field{{Name: "verbose", Number: 1, Kind: "bool", Ann: ir.Ann{Query: &ir.Query{Name: "verbose"}}}}})
+	api.Services = append(api.Services, &ir.Service{Name: "Tools", BasePath: "/tools", Methods: []*ir.Method{
+		{Name: "IDLookup", Input: ".fr.models.v1.AccountRef", Output: ".fr.api.v1.Receipt", Config: &ir.HTTPConfig{Path: "/id/{id}", Method: "GET"}},
+		{Name: "URLPreview", Input: ".fr.api.v1.OpenReq", Output: ".fr.api.v1.Receipt", Config: &ir.HTTPConfig{Path: "/preview", Method: "POST"}},
+		{Name: "HTTPPing", Input: ".fr.api.v1.PingReq", Output: ".fr.api.v1.Receipt", Config: &ir.HTTPConfig{Path: "/ping", Method: "GET"},
+			Headers: []ir.Header{{Name: "X-Probe", Type: "string", Required: true}}},
+	}})
+	return &ir.Request{Files: []*ir.File{models, api}, Generate: []string{api.Name}}
 }
 
 func splitPQ(req *ir.Request) *ir.Request {
